@@ -48,7 +48,7 @@ def plan(tier, seed):
     quick = tier == "quick"
     return {
         "nshards": 16,
-        "params": {"soft_s": 1500 if quick else 5400, "nprograms": 14 if quick else 120, "script_len": 10 if quick else 20, "fault_every": 12 if quick else 4, "fault_points": 3 if quick else 12},
+        "params": {"soft_s": 1500 if quick else 5400, "nprograms": 14 if quick else 56, "script_len": 10 if quick else 14, "fault_every": 12 if quick else 4, "fault_points": 3 if quick else 12},
         "hard_timeout_s": 2700 if quick else 9000,
     }
 
